@@ -54,7 +54,7 @@ class KeydownSkillComponent(SkillComponent, KeydownSkillTrait, CooldownValidityT
 
     @view_method
     def validity(self, state: KeydownSkillState):
-        return self.validity_in_cooldown_trait(state)
+        return self.validity_in_keydown_trait(state)
 
     @view_method
     def keydown(self, state: KeydownSkillState):
